@@ -152,6 +152,23 @@ class _Inliner:
             if len(call.args) > len(ps) or any(k.arg not in ps for k in call.keywords):
                 return None
             return g
+        elif isinstance(call.func, ast.Attribute) and isinstance(call.func.value, ast.Attribute) and \
+                isinstance(call.func.value.value, ast.Name) and call.func.value.value.id == 'self' and self.f.cls is not None and \
+                self._field_class(call.func.value.attr) is not None:
+            # self.F.m(..) where the field F always holds an object of one helper class of the module: m is pasted in with
+            # its own ``self`` standing for ``self.F``
+            ci = self._field_class(call.func.value.attr)
+            g = self.repo.lookup_method(ci, call.func.attr)
+            if g is None or g in self.keep or g.is_generator or g.decorators or not _returns_ok(g) or g in scope or g.nested or \
+                    g.node.args.vararg or g.node.args.kwarg or g.node.args.kwonlyargs or not g.params or \
+                    any(isinstance(n, (ast.Global, ast.Nonlocal)) for n in own_nodes(g.node)) or \
+                    any(isinstance(n, ast.Name) and n.id == g.params[0] and isinstance(n.ctx, (ast.Store, ast.Del)) for n in own_nodes(g.node)) or \
+                    any(isinstance(n, (ast.Lambda, ast.FunctionDef)) for n in own_nodes(g.node) if n is not g.node):
+                return None
+            ps = g.params[1:]
+            if len(call.args) > len(ps) or any(k.arg not in ps for k in call.keywords):
+                return None
+            return g
         elif isinstance(call.func, ast.Attribute) and isinstance(call.func.value, ast.Name) and call.func.value.id == 'self' and self.f.cls is not None:
             g = self.f.cls.methods.get(call.func.attr)      # a helper method of the same class (not an inherited or overridden one)
             if g is not None and any(call.func.attr in c.methods for c in self.repo.subclasses(self.f.cls, strict=True)):
@@ -162,6 +179,30 @@ class _Inliner:
         if len(call.args) > len(ps) or any(k.arg not in ps for k in call.keywords):
             return None
         return g
+
+    def _field_class(self, field):
+        """the helper class of this module whose instances are the only values ever stored in ``self.<field>`` (by any
+        method of the class of the function under view or of its bases), else None"""
+        cache = self.__dict__.setdefault('_field_classes', {})
+        if field not in cache:
+            found = set()
+            for c in self.repo.mro(self.f.cls):
+                for m in c.methods.values():
+                    for n in own_nodes(m.node):
+                        targets = n.targets if isinstance(n, ast.Assign) else [n.target] if isinstance(n, (ast.AnnAssign, ast.AugAssign)) else []
+                        for t in targets:
+                            for x in ast.walk(t):
+                                if isinstance(x, ast.Attribute) and x.attr == field and isinstance(x.ctx, ast.Store):
+                                    v = getattr(n, 'value', None)
+                                    if isinstance(n, ast.Assign) and x is t and isinstance(v, ast.Call) and isinstance(v.func, ast.Name) and \
+                                            v.func.id in self.mod.classes and isinstance(x.value, ast.Name) and x.value.id == m.params[0]:
+                                        found.add(v.func.id)
+                                    else:
+                                        found.add(None)
+                        if isinstance(n, ast.Call) and isinstance(n.func, ast.Name) and n.func.id == 'setattr':
+                            found.add(None)
+            cache[field] = self.mod.classes[next(iter(found))] if len(found) == 1 and None not in found else None
+        return cache[field]
 
     def _plain_class(self, ci):
         """a helper class of the module whose objects can be dissolved: no bases from outside, plain methods, a constructor
@@ -277,6 +318,8 @@ class _Inliner:
         objname = call.func.value.id if (isinstance(call.func, ast.Attribute) and isinstance(call.func.value, ast.Name) and
                                          call.func.value.id in self.objs) else None
         me = g.params[0] if g.cls is not None and g.params else None
+        if isinstance(call.func, ast.Attribute) and isinstance(call.func.value, ast.Attribute) and me is not None and g.cls is not self.f.cls:
+            subst[me] = call.func.value         # the helper object lives in a field: its ``self`` is ``self.<field>``
         obj_methods = set(self.objs[objname].methods) if objname else set()
 
         class Sub(ast.NodeTransformer):
@@ -339,9 +382,10 @@ class _Inliner:
     def hoist(self, s, depth, scope):
         """helper calls nested in the expressions of a simple statement are taken out into ``_hN = helper(...)``
         statements in front of it (not out of short-circuit operands, conditional expressions, lambdas, comprehensions)"""
-        if depth <= 0 or not isinstance(s, (ast.Expr, ast.Assign, ast.AugAssign, ast.Return, ast.If)):
+        if depth <= 0 or not isinstance(s, (ast.Expr, ast.Assign, ast.AugAssign, ast.Return, ast.If, ast.For)):
             return [], s
-        roots = [s.test] if isinstance(s, ast.If) else [s.value] if getattr(s, 'value', None) is not None else []
+        roots = [s.test] if isinstance(s, ast.If) else [s.iter] if isinstance(s, ast.For) else \
+            [s.value] if getattr(s, 'value', None) is not None else []
         if isinstance(s, ast.Assign):
             roots = [s.value] + [t for t in s.targets if not isinstance(t, ast.Name)]
         pre = []
@@ -364,10 +408,12 @@ class _Inliner:
                 return ast.copy_location(ast.Name(id=name, ctx=ast.Load()), e)
             return e
         for r in roots:
-            is_stmt_call = isinstance(r, ast.Call) and (r is getattr(s, 'value', None)) and not isinstance(s, ast.If)
+            is_stmt_call = isinstance(r, ast.Call) and (r is getattr(s, 'value', None)) and not isinstance(s, (ast.If, ast.For))
             new = visit(r, is_stmt_call)
             if isinstance(s, ast.If):
                 s.test = new
+            elif isinstance(s, ast.For):
+                s.iter = new
             elif r is getattr(s, 'value', None):
                 s.value = new
             else:
